@@ -405,6 +405,17 @@ func flowAlphabet(v9 bool) map[string]pdgram {
 	}
 }
 
+// jumboFlow: one datagram of n records of template 256 (10 octets each)
+func jumboFlow(v9 bool, n int) pdgram {
+	tpls, t1, _ := flowTemplates(v9)
+	var rs []ref.Record
+	for i := 0; i < n; i++ {
+		rs = append(rs, flowRec(t1, byte(5*i+1)))
+	}
+	w := (&ref.Msg{V9: v9, Hdr: [5]uint32{1, 11, 22, 77, 44}, Sets: []ref.Set{{Kind: ref.SetData, TemplateID: t1.ID, Records: rs}}}).Encode(tpls)
+	return pdgram{fmt.Sprintf("jumbo-%d-records", n), expA, w}
+}
+
 // companionDatagrams: two IPFIX datagrams of about 3000 octets (300 / 290 records of template 256), longer than any other
 // protocol's default receive buffer
 func companionDatagrams() []pdgram {
@@ -991,6 +1002,12 @@ func c12Items(tier string) []pipeItem {
 		out = append(out, pipeItem{"paced traffic short-mid-long", pipeRun{proto: p, workers: 1, seq: seqOf(al, "dataB-short", "dataA-mid", "dataA-long", "dataA-mid"), cache: cache, paced: true}, b})
 		if p == ppIPFIX || p == ppV9 {
 			out = append(out, pipeItem{"in-band template", pipeRun{proto: p, workers: 2, seq: seqOf(al, "inband-tpl", "inband-data", "dataA-mid"), cache: cache, inband: true}, b})
+		}
+		if p == ppIPFIX || p == ppV9 {
+			// a datagram of 12 000 octets (jumbo frames / fragments; max-udp-size raised to fit) whose message is far larger
+			// than any other - about 80 KB of JSON - and ordinary ones behind it on the same worker: whatever the worker
+			// keeps between messages (its encode buffer) must serve the next message as a fresh one would
+			out = append(out, pipeItem{"a 12 000-octet datagram, then ordinary ones, one worker", pipeRun{proto: p, workers: 1, seq: append([]pdgram{jumboFlow(p == ppV9, 1200)}, seqOf(al, "dataA-mid", "dataB-short")...), cache: cache, fitBuffer: true, paced: true}, 0})
 		}
 	}
 	return out
